@@ -152,7 +152,7 @@ def pkg_dir():
 
 
 LINKS = ['func', 'method', 'lambda', 'generator', 'exec', 'nested', 'staticmethod', 'listcomp', 'reraise-saved',
-         'reraise-in-except', 'genexpr-recursion']
+         'reraise-in-except', 'genexpr-recursion', 'pseudo-file']
 EXC_DEFS = '''
 class ModErr(Exception):
     pass
@@ -171,7 +171,11 @@ class StrErr(Exception):
 EXC_EXPR = {'ValueError': 'ValueError(MSG)', 'KeyError': 'KeyError(MSG)', 'ModErr': 'ModErr(MSG)',
             'InnerErr': 'Outer.InnerErr(MSG)', 'DeeperErr': 'Outer.Deep.DeeperErr(MSG)', 'StrErr': 'StrErr(MSG)',
             'ZeroDivisionError': None, 'OSError': 'OSError(2, MSG)', 'noargs': 'RuntimeError()',
-            'twoargs': 'ValueError(MSG, 2)', 'AttributeError': None, 'bare-class': 'ModErr'}
+            'twoargs': 'ValueError(MSG, 2)', 'AttributeError': None, 'bare-class': 'ModErr',
+            # parser errors: they carry .msg/.lineno/.pos attributes and build their text from them
+            'JSONDecodeError': '__import__("json").JSONDecodeError(MSG or "Expecting value", "{\\n  1: 2}", 5)',
+            're.error': '__import__("re").error(MSG or "bad escape", "a(b", 2)',
+            'UnicodeDecodeError': 'UnicodeDecodeError("utf-8", b"ab\\xff", 2, 3, MSG or "invalid start byte")'}
 MSG_CLASSES = {'empty': '', 'plain': 'something failed', 'colon': 'key: value: more', 'multi': 'first line\nsecond line',
                'unicode': 'ünï çødé', 'spaces': '  padded  ', 'quote': 'it\'s "quoted"'}
 
@@ -247,6 +251,16 @@ def build_module(c):
             # recursion THROUGH a generator expression on one line: many consecutive frames share file and line but
             # alternate between two function names (the interpreter abbreviates only identical frames)
             src += ['def %s(x, n=4):' % fn, '    return sum(%s(x, n - 1) for _ in (0,)) if n else %s(x)' % (fn, prev), '']
+        elif link == 'pseudo-file':
+            # generated code compiled under a "<...>" name whose source is registered with linecache directly
+            # (what attrs, IPython, doctest and template engines do): the interpreter shows those source lines
+            src += ['import linecache as _lc%d' % i,
+                    '_name%d = "<verif-generated-%%d-%d>" %% id(level0)' % (i, i),
+                    '_text%d = "def dyn(x):\\n    y = x  # generated\\n    return prev(y)\\n"' % i,
+                    '_lc%d.cache[_name%d] = (len(_text%d), None, _text%d.splitlines(True), _name%d)' % (i, i, i, i, i),
+                    '_ns%d = {"prev": %s}' % (i, prev),
+                    'exec(compile(_text%d, _name%d, "exec"), _ns%d)' % (i, i, i),
+                    'def %s(x):' % fn, '    return _ns%d["dyn"](x)' % i, '']
         elif link == 'nested':
             src += ['def %s(x):' % fn, '    def inner(z):', '        return %s(z)' % prev, '    return inner(x)', '']
         else:   # exec'd code: frames without source
